@@ -13,7 +13,8 @@ RULE = ("case = (generator type, construction path, jds, sizes, build callbacks,
         "Non-trivial = valid case with >=2 motif instances of which one has >=2 edges or is a bare edge; distinct by "
         "(type, jds, sizes, builders, names, indices, pis)")
 EXHAUSTIVE = {"quick": True, "thorough": True}
-EXPLANATION = ("general theorems (all inputs, callbacks, permutations) in Props/C02.v; correspondence exhaustive over "
+EXPLANATION = ("general theorems (all inputs, callbacks, permutations) in Props/C02.v, checker proved to decide the "
+               "specification (sound + complete); correspondence exhaustive over "
                "the small family named in the rule and seeded-random beyond")
 ASSUMPTIONS = [
     "random.shuffle is the only randomness used (every other entry point raises during a run)",
@@ -30,8 +31,10 @@ LEVEL_TEXT = (
     "each block carrying exactly that call's edges, the prescribed names (topology name resp. position j of the "
     "naming callback; one row for a bare edge, two rows for a two-edge motif) and the call's index as motif id, so "
     "the rows sharing an id are exactly one callback's edges and distinct instances never share one. c02_check is "
-    "proved sound for the Prop-level block specification and is run on the real generators' columns (raw entries: "
-    "every edge must be a pair of ints). Tied to /repo by exact column comparison under scripted shuffles.")
+    "proved sound AND complete for the Prop-level block specification (C02_checker_correct: it returns true iff "
+    "every raw entry is a pair of non-negative ints and Spec_C02 holds), the model's own columns are proved to "
+    "pass it for all inputs (C02_*_model_passes_checker), and it is run on the real generators' columns (raw "
+    "entries: every edge must be a pair of ints). Tied to /repo by exact column comparison under scripted shuffles.")
 LEVEL_NOTE = ("Trusted: Coq kernel; extraction + OCaml driver + Python harness for the correspondence. The fast "
               "generator with a bare-edge callback (entries would be ints) is outside the modelled surface. "
               "Print Assumptions: closed under the global context.")
